@@ -329,3 +329,34 @@ func innermostCopy(c *ssa.Call) *ssa.Call {
 	}
 	return c
 }
+
+// guardCut builds a CutEdge function from a literal guard: the edge is cut when
+// its literal satisfies the guard, or when it branches on a boolean helper every
+// path of which (to that outcome) establishes the guard.
+func guardCut(guard func(l Lit) bool) func(b *ssa.BasicBlock, i int, l *Lit) bool {
+	return func(b *ssa.BasicBlock, i int, l *Lit) bool {
+		if l == nil {
+			return false
+		}
+		if guard(*l) {
+			return true
+		}
+		alts := engine.ExpandLitDNF(*l)
+		if len(alts) == 0 {
+			return false
+		}
+		for _, alt := range alts {
+			hit := false
+			for _, il := range alt {
+				if guard(il) {
+					hit = true
+					break
+				}
+			}
+			if !hit {
+				return false
+			}
+		}
+		return true
+	}
+}
